@@ -144,7 +144,7 @@ def guard_history(ctx, ncalls):
 def accept_loop(ctx, event, step):
     """event in none/flag/cancel/error at loop step `step` (0-based)"""
     delay = ctx.num("accept_delay")
-    ctx.assume(delay > 0)
+    ctx.assume(delay >= 0)  # the constructor accepts 0: the loop then polls without pausing
     r = _runner(accept_delay=delay)
     sweeps = []
     r._adopt_services = lambda: sweeps.append(len(sweeps))
@@ -246,7 +246,7 @@ def _lifecycle_scenario(population):
     from . import rt
 
     problems = []
-    w = rt.World(accept_delay=0.02)
+    w = rt.World(accept_delay=0 if population == "zero_delay" else 0.02)
     runner = w.runner
     stop = w.stop_flag
     beats = []
@@ -307,6 +307,11 @@ def _lifecycle_scenario(population):
             problems.append("concurrent accept did not raise RuntimeError (%s)" % o.kind)
         if not (runner.running.is_set() and w.thread.is_alive()):
             problems.append("the active runner was disturbed by a rejected accept")
+        o, _ = rt.blocking(runner.accept, bound=5)  # the same instance asked to accept again
+        if not (o.kind == "raise" and isinstance(o.exc, RuntimeError)):
+            problems.append("a second accept on the active runner did not raise RuntimeError (%s)" % o.kind)
+        if not (runner.running.is_set() and not runner._is_shutdown.is_set() and w.thread.is_alive()):
+            problems.append("the active runner no longer reports running after its own rejected second accept")
         time.sleep(0.05)
         if population == "thread_keyboardinterrupt":
             # a KeyboardInterrupt has the same effect as shutdown(): accept() returns
@@ -356,7 +361,7 @@ def _lifecycle_scenario(population):
 
 
 POPULATIONS = ("none", "asyncio_sleeping", "asyncio_successor", "asyncio_successor_chain", "trio_sleeping",
-               "trio_successor", "thread_blocked", "thread_keyboardinterrupt", "failure_then_shutdown", "mixed")
+               "trio_successor", "thread_blocked", "thread_keyboardinterrupt", "failure_then_shutdown", "zero_delay", "mixed")
 
 
 def extra(tier, seed):
